@@ -37,14 +37,41 @@ func Run(seed int64, goroutines, perG int, buggyShared bool) []Event {
 	rng := rand.New(rand.NewSource(seed))
 	rb := func(n int) []byte { b := make([]byte, n); rng.Read(b); return b }
 	shared := crypto.NewExpandMsgXOFKMAC128("verif-c19")
-	kmac, _ := hash.NewKMAC_128(rb(32), []byte("cust"), 64)
-	var blsSK []crypto.PrivateKey
-	var blsPK []crypto.PublicKey
-	for i := 0; i < 4; i++ {
-		sk, _ := crypto.GeneratePrivateKey(crypto.BLSBLS12381, rb(32))
-		blsSK = append(blsSK, sk)
-		blsPK = append(blsPK, sk.PublicKey())
+	kmacKey := rb(32)
+	kmac, _ := hash.NewKMAC_128(kmacKey, []byte("cust"), 64)
+	// key objects of every internal form: generated (affine public key), a public key share of the threshold key generation and
+	// the remainder of a key removal (results of point arithmetic).  mkKeys builds the same key VALUES in fresh objects each time.
+	keySeeds := [][]byte{rb(32), rb(32), rb(32), rb(32), rb(32)}
+	mkKeys := func() ([]crypto.PrivateKey, []crypto.PublicKey) {
+		var sks []crypto.PrivateKey
+		var pks []crypto.PublicKey
+		for i := 0; i < 2; i++ {
+			sk, _ := crypto.GeneratePrivateKey(crypto.BLSBLS12381, keySeeds[i])
+			sks = append(sks, sk)
+			pks = append(pks, sk.PublicKey())
+		}
+		tsk, tpk, _, err := crypto.BLSThresholdKeyGen(3, 1, keySeeds[2])
+		if err != nil {
+			panic(err)
+		}
+		sks = append(sks, tsk[0])
+		pks = append(pks, tpk[0])
+		sk3, _ := crypto.GeneratePrivateKey(crypto.BLSBLS12381, keySeeds[3])
+		other, _ := crypto.GeneratePrivateKey(crypto.BLSBLS12381, keySeeds[4])
+		agg, err := crypto.AggregateBLSPublicKeys([]crypto.PublicKey{sk3.PublicKey(), other.PublicKey()})
+		if err != nil {
+			panic(err)
+		}
+		rem, err := crypto.RemoveBLSPublicKeys(agg, []crypto.PublicKey{other.PublicKey()})
+		if err != nil {
+			panic(err)
+		}
+		sk3b, _ := crypto.DecodePrivateKey(crypto.BLSBLS12381, sk3.Encode()) // a private key whose public key was never computed
+		sks = append(sks, sk3b)
+		pks = append(pks, rem)
+		return sks, pks
 	}
+	blsSK, blsPK := mkKeys()
 	ecSK := []crypto.PrivateKey{}
 	for _, a := range []crypto.SigningAlgorithm{crypto.ECDSAP256, crypto.ECDSASecp256k1} {
 		sk, _ := crypto.GeneratePrivateKey(a, rb(32))
@@ -155,11 +182,18 @@ func Run(seed int64, goroutines, perG int, buggyShared bool) []Event {
 	}
 	// the concurrent phase runs on FRESH key objects equal to the ones used above (re-decoded from their encodings):
 	// whatever a key object computes lazily on first use then happens under concurrency
-	for i := range blsSK {
-		skb, pkb := blsSK[i].Encode(), blsPK[i].Encode()
-		blsSK[i], _ = crypto.DecodePrivateKey(crypto.BLSBLS12381, skb)
-		blsPK[i], _ = crypto.DecodePublicKey(crypto.BLSBLS12381, pkb)
+	// ... and on FRESH hashers with the same parameters: the first ComputeHash of a hasher object happens under concurrency too
+	fsk, fpk := mkKeys()
+	copy(blsSK, fsk)
+	copy(blsPK, fpk)
+	if seed%3 == 0 { // sometimes decoded (affine) objects instead
+		for i := range blsSK {
+			blsSK[i], _ = crypto.DecodePrivateKey(crypto.BLSBLS12381, fsk[i].Encode())
+			blsPK[i], _ = crypto.DecodePublicKey(crypto.BLSBLS12381, fpk[i].Encode())
+		}
 	}
+	shared = crypto.NewExpandMsgXOFKMAC128("verif-c19")
+	kmac, _ = hash.NewKMAC_128(kmacKey, []byte("cust"), 64)
 	for i := range ecSK {
 		a := ecSK[i].Algorithm()
 		ecSK[i], _ = crypto.DecodePrivateKey(a, ecSK[i].Encode())
